@@ -219,9 +219,18 @@ def run_major(cfg):
     cov_mod.max = symx.smax
     state = {}
 
+    # observations below the quality thresholds, present in the raw evidence only
+    lowq = {}
+    for m_ in list(xs):
+        lq = z3.Real(f"lq_{m_.pos}_{m_.op}")
+        base += [lq >= 0, lq <= 40]
+        lowq[m_.pos, m_.op] = S(lq)
+    LOWQ[cfg["gene"], cfg["genome"]] = {k: v.t for k, v in lowq.items()}
+
     def run():
         aldy.common.json.clear()
-        cov = stagelib.SymCoverage(gene, prof, counts, totals, identity_filter=False)
+        cov = stagelib.SymCoverage(gene, prof, counts, totals, identity_filter=False,
+                                   lowq=lowq)
         real = major.solve_major_model
 
         def spy(gene_, coverage, *a, **kw):
@@ -619,10 +628,17 @@ def replay_phase(o):
                               f"min_mapq) changes the minor solution: {out[0]} -> {out[1]}")
 
 
+LOWQ = {}
+
+
 def cex_counts(res, cfg, stage, mdl, xs, totals, thr, mc, what):
     vals = {f"{m.pos}|{m.op}": float(symx.model_value(mdl, x)) for m, x in xs.items()}
+    lqv = {f"{k[0]}|{k[1]}": float(symx.model_value(mdl, t))
+           for k, t in LOWQ.get((cfg["gene"], cfg.get("genome")), {}).items()} \
+        if stage == "major" else {}
     rp = {"kind": "counts", "stage": stage, "gene": cfg["gene"], "genome": cfg["genome"],
           "cn": cfg.get("cn", ["1", "1"]), "major": cfg.get("major"), "counts": vals,
+          "lowq": lqv,
           "totals": {str(k): v for k, v in totals.items()},
           "thr": float(symx.model_value(mdl, thr)), "mc": float(symx.model_value(mdl, mc))}
     okk, msg = replay(rp)
@@ -652,11 +668,18 @@ def replay_counts(o):
         if c > 0:
             counts[Mutation(int(pos), op)] = c
     cov = stagelib.concrete_coverage(gene, prof, counts)
+    for k, v in (o.get("lowq") or {}).items():
+        pos, op = k.split("|", 1)
+        n = int(round(v * K))
+        if n > 0:
+            cov._coverage.setdefault(int(pos), {}).setdefault(op, [])
+            cov._coverage[int(pos)][op] = cov._coverage[int(pos)][op] + [(0, 0)] * n
+    hq = stagelib.concrete_coverage(gene, prof, counts)
     cn_list = list(o["cn"])
     cn_sol = CNSolution(gene, 0, cn_list)
 
     def want(m):
-        t = cov.total(m.pos)
+        t = hq.total(m.pos)
         c = counts.get(m, 0)
         okk = c >= max(prof.min_coverage, t * prof.threshold / 20)
         if m.op != "_":
